@@ -35,6 +35,8 @@ TraceWrite ==
 TraceRawCopy ==
    /\ IsEvent("ZRawCopy") /\ Check(ev.r = Cls(~st.dead))
    /\ st' = [st EXCEPT !.open = FALSE, !.larges = IF ev.r = "ok" THEN Append(st.larges, Need(ev.usize) \/ Need(ev.csize)) ELSE st.larges]
+\* opening the finished archive for append keeps every old entry (their local headers are not touched again)
+TraceAppend == IsEvent("ZAppend") /\ Check(ev.r = "ok" /\ st.fin = "ok") /\ st' = [st EXCEPT !.fin = "none", !.open = FALSE]
 TraceBulk ==
    /\ IsEvent("ZBulk") /\ Check(ev.ok = (IF st.dead THEN 0 ELSE ev.count))
    /\ st' = [st EXCEPT !.open = FALSE, !.larges = st.larges \o [i \in 1..ev.ok |-> FALSE]]
@@ -69,7 +71,7 @@ TraceRead ==
    /\ Check(ev.r = "ok" /\ BEq(ev.len, ev.expect.len) /\ ev.zeros_ok /\ ev.head = ev.expect.head /\ ev.tail = ev.expect.tail)
    /\ UNCHANGED st /\ Count(4)
 TraceInit == l = 1 /\ st = St0 /\ \A i \in 1..4 : TLCSet(i, 0)
-TraceNext == TraceReset \/ TraceNew \/ TraceStart \/ TraceWrite \/ TraceRawCopy \/ TraceBulk \/ TraceFinish \/ TraceArch \/ TraceRead
+TraceNext == TraceReset \/ TraceNew \/ TraceAppend \/ TraceStart \/ TraceWrite \/ TraceRawCopy \/ TraceBulk \/ TraceFinish \/ TraceArch \/ TraceRead
 TraceSpec == TraceInit /\ [][TraceNext]_tvars
 TraceAccepted ==
    LET d == TLCGet("stats").diameter IN
